@@ -162,7 +162,7 @@ def _run_stream(ctx, fc, ufoio, tag, seed, count, gen, style_classes, known_ids,
         surface = [c for c in fc.SURFACE_CLASSES if styles[case].get(c)]
         try:
             rb = ufoio.read_ufo(wufo)
-            d1, _ = fc.equal(rb, font, tol=0.0, ignore_creator=False)
+            d1, _ = fc.equal(rb, font, strip="both", tol=0.0, ignore_creator=False)
             if d1 and not surface:
                 ctx.disagreements.append({"what": "independent writer and reader are not inverse (tooling)", "case": case,
                                           "stream": tag, "differences": [(p, fc.short(x), fc.short(y)) for p, x, y in d1[:4]]})
